@@ -633,6 +633,7 @@ impl<'a> Interp<'a> {
         let mut end: isize = last as isize + 1;
         let alt_len = (last - i + 1) as isize;
         let mut alt_changes: isize = 0;
+        let orig_count = positions.len();
         for &(seq, nl) in recs {
             let (seq, nl) = (seq as usize, nl as usize);
             if seq >= positions.len() {
@@ -663,6 +664,11 @@ impl<'a> Interp<'a> {
             let mut delta = self.buf.len() as isize - before;
             if applied.is_some() {
                 self.out.classes.insert("nested-lookup-applied".to_string());
+                if seq >= orig_count {
+                    // a position that exists only because an earlier record lengthened the sequence
+                    self.out.classes.insert("record-applied-beyond-original-input-count".to_string());
+                    self.out.classes.insert(format!("record-applied-beyond-original-input-count:{}", lk.subs.iter().map(|s| s.name()).next().unwrap_or("?")));
+                }
                 let nlk = self.lk(nl);
                 if (nlk.flag, nlk.mark_set) != (lk.flag, lk.mark_set) {
                     self.out.classes.insert(format!("nested-lookup-applied-with-own-flags:type{}", nlk.ltype));
